@@ -939,6 +939,11 @@ class Body:
                         if op == "BitOr" and x is True:
                             return True
                     return None
+                if op.endswith("WithOverflow") and isinstance(a, int) and isinstance(b_, int) and not isinstance(a, bool):
+                    r = {"Add": a + b_, "Sub": a - b_, "Mul": a * b_}.get(op[:-len("WithOverflow")])
+                    return ("agg", 0, (r, r is not None and r < 0)) if r is not None else None
+                if op in ("Add", "Sub", "Mul", "AddUnchecked", "SubUnchecked") and isinstance(a, int) and isinstance(b_, int) and not isinstance(a, bool):
+                    return {"Add": a + b_, "Sub": a - b_, "Mul": a * b_, "AddUnchecked": a + b_, "SubUnchecked": a - b_}[op]
                 try:
                     return {"Eq": a == b_, "Ne": a != b_, "Lt": a < b_, "Le": a <= b_, "Gt": a > b_, "Ge": a >= b_,
                             "BitAnd": (a and b_) if isinstance(a, bool) else (a & b_), "BitOr": (a or b_) if isinstance(a, bool) else (a | b_),
